@@ -846,9 +846,13 @@ def r3_rebuild_and_assert(run, w):
     raise AnalysisError("apply_user_actions: the rollback / the check after it is inside a "
                         "function that could not be read in place")
   xexits = {xcfg.exit.id, xcfg.raise_exit.id}
-  ok = bool(undo) and bool(checks_h) and all(
-    not (H.reach_assuming(xcfg, set(xcfg.normal_succ(u)), touched, removed=checks_h) & xexits)
-    for u in undo)
+  # (what follows the rollback in the handler is followed as long as it completes: a statement of
+  # the handler that itself fails ends the handler with that failure, which is not the schema
+  # check being skipped)
+  def after_undo(u):
+    cut = H.impossible_edges(xcfg, touched) | set(xcfg.exc_edges)
+    return H._reach_cut_edges(xcfg, set(xcfg.normal_succ(u)), cut, removed=checks_h)
+  ok = bool(undo) and bool(checks_h) and all(not (after_undo(u) & xexits) for u in undo)
   run.ob(R3, fn.qualname, "_undo_to_checkpoint(...) -> if self._schema_updated: "
          "assert_schema_consistent()", "after a rollback the schema is compared with the metadata "
          "again", ok, fi=fn.fi)
@@ -1025,6 +1029,9 @@ VARIANTS = [
   ("no-assert-after-useraction", EN,
    "        # If the UserAction touched the schema, check that it is now consistent with metadata.\n        if self._schema_updated:\n          self.assert_schema_consistent()\n",
    "", "C08-R3"),
+  ("no-assert-after-rollback", EN,
+   "        if self._schema_updated:\n          self.assert_schema_consistent()\n      except Exception:\n        log.error(\"Inconsistent schema",
+   "        pass\n      except Exception:\n        log.error(\"Inconsistent schema", "C08-R3"),
   ("flag-reset-after-action", EN,
    "        self.out_actions.retValues.append(self._apply_one_user_action(user_action))\n",
    "        self.out_actions.retValues.append(self._apply_one_user_action(user_action))\n        self._schema_updated = False\n",
